@@ -40,11 +40,17 @@ import (
 
 const inlineRounds = 5
 
+type awaySpan struct {
+	file       string
+	start, end int
+}
+
 type inlineInfo struct {
-	Away     []string // new helpers with no call left after expansion: not analysed on their own
-	Expanded []string // "helper into caller (file:line)"
-	Skipped  []string // "helper: reason"
-	Dropped  string   // non-empty when an overlay failed to type-check
+	awaySpans []awaySpan // where the Away helpers are declared in the overlay text (byte offsets)
+	Away      []string   // new helpers with no call left after expansion: not analysed on their own
+	Expanded  []string   // "helper into caller (file:line)"
+	Skipped   []string   // "helper: reason"
+	Dropped   string     // non-empty when an overlay failed to type-check
 }
 
 var lastInline = &inlineInfo{}
@@ -197,7 +203,7 @@ func inlineOverlay(dir string, known map[string]bool, namedOnly bool) map[string
 	if !namedOnly {
 		lastInline = info
 	} else {
-		lastInlineStreams = info
+		info = lastInlineStreams // accumulates over package streams and the streams/values packages
 	}
 	overlay := map[string][]byte{}
 	counter := 0
@@ -885,6 +891,13 @@ func inlineOverlay(dir string, known map[string]bool, namedOnly bool) map[string
 			if o := fp.TypesInfo.Defs[fd.Name]; o != nil && refs[o] == 0 {
 				if !namedOnly {
 					expandedAway[declName(fd)] = true
+				}
+				if tf := fp.Fset.File(fd.Pos()); tf != nil {
+					start := fd.Pos()
+					if fd.Doc != nil {
+						start = fd.Doc.Pos()
+					}
+					info.awaySpans = append(info.awaySpans, awaySpan{tf.Name(), tf.Offset(start), tf.Offset(fd.End())})
 				}
 				info.Away = append(info.Away, declName(fd))
 			}
